@@ -40,14 +40,16 @@ type DirF struct {
 // Event: process P arrived at point Pt (about to execute it); Dir is the directory after
 // the step that brought it there.
 type Event struct {
-	P   string          `json:"p"`
-	A   string          `json:"a"` // "step" | "timeout"
-	Pt  string          `json:"pt"`
-	F   string          `json:"f"`
-	Cf  string          `json:"cf"`
-	Dir map[string]DirF `json:"dir"`
-	Out string          `json:"out"`
-	Op  string          `json:"op"` // operation p is executing ("read","update","create","commit","rollback","end")
+	P      string          `json:"p"`
+	A      string          `json:"a"` // "step" | "timeout"
+	Pt     string          `json:"pt"`
+	F      string          `json:"f"`
+	Cf     string          `json:"cf"`
+	Dir    map[string]DirF `json:"dir"`
+	Out    string          `json:"out"`
+	Op     string          `json:"op"` // operation p is executing ("read","update","create","commit","rollback","end")
+	FailF  string          `json:"ff"` // exited: table of the operation that failed ("" = none)
+	FailOp string          `json:"fo"` // operation that failed ("" = none)
 }
 
 var gated = map[string]bool{
@@ -60,7 +62,7 @@ var gated = map[string]bool{
 	"commit.data_fd": true, "commit.temp_fd": true, "commit.remove_orig": true, "commit.rename": true,
 	"commit.swapped": true, "commit.done": true,
 	"cwe.data_fd": true, "cwe.remove_created": true, "cwe.done": true,
-	"load.done": true,
+	"load.done": true, "stmt.begin": true,
 }
 
 type ctlCtx struct {
@@ -69,9 +71,9 @@ type ctlCtx struct {
 	err  error
 }
 
-func newCtl() *ctlCtx                              { return &ctlCtx{done: make(chan struct{})} }
-func (c *ctlCtx) Deadline() (time.Time, bool)      { return time.Now().Add(24 * time.Hour), true }
-func (c *ctlCtx) Done() <-chan struct{}            { return c.done }
+func newCtl() *ctlCtx                               { return &ctlCtx{done: make(chan struct{})} }
+func (c *ctlCtx) Deadline() (time.Time, bool)       { return time.Now().Add(24 * time.Hour), true }
+func (c *ctlCtx) Done() <-chan struct{}             { return c.done }
 func (c *ctlCtx) Value(key interface{}) interface{} { return nil }
 func (c *ctlCtx) Err() error {
 	c.mu.Lock()
@@ -101,6 +103,7 @@ type proc struct {
 	outcome string
 	errText string
 	failOp  string
+	failF   string
 }
 
 type Sched struct {
@@ -159,7 +162,7 @@ func baseOf(path string) string {
 // and starts every process up to its first gate.
 func New(dir string, files []string, exists map[string]bool, progs map[string][]Op) *Sched {
 	hookMu.Lock()
-	s := &Sched{Dir: dir, Files: files, procs: map[string]*proc{}, Block: 150 * time.Millisecond}
+	s := &Sched{Dir: dir, Files: files, procs: map[string]*proc{}, Block: 60 * time.Millisecond}
 	for _, f := range files {
 		if exists[f] {
 			_ = os.WriteFile(filepath.Join(dir, f+".csv"), []byte("n\n0\n"), 0644)
@@ -212,7 +215,7 @@ func sqlOf(o Op) string {
 	case "update":
 		return "UPDATE `" + o.F + ".csv` SET n = n + 1"
 	case "create":
-		return "CREATE TABLE `" + o.F + ".csv` (n); INSERT INTO `" + o.F + ".csv` VALUES (0)"
+		return "CREATE TABLE `" + o.F + ".csv` (n)"
 	case "commit":
 		return "COMMIT"
 	case "rollback":
@@ -242,7 +245,7 @@ func (s *Sched) runProc(p *proc, started chan struct{}) {
 	close(started)
 	defer func() {
 		s.byGoid.Delete(p.goid)
-		p.arrive <- Event{P: p.name, Pt: "exited", F: "-", Out: p.outcome, Op: p.failOp}
+		p.arrive <- Event{P: p.name, Pt: "exited", F: "-", Out: p.outcome, Op: "end"}
 	}()
 	pr, err := sut.NewProcCtx(p.ctx, s.Dir, nil)
 	if err != nil {
@@ -264,6 +267,7 @@ func (s *Sched) runProc(p *proc, started chan struct{}) {
 				p.outcome = classify(r)
 				p.errText = r.Err
 				p.failOp = o.Op
+				p.failF = o.F
 				return
 			}
 		}
@@ -307,7 +311,9 @@ func (s *Sched) dir() map[string]DirF {
 				d.Exists = true
 				if b, err := os.ReadFile(filepath.Join(s.Dir, n)); err == nil {
 					lines := bytes.Split(bytes.TrimSpace(b), []byte("\n"))
-					if len(lines) >= 2 {
+					if string(b) == "n\n" {
+						d.Ver = 0 // a committed created table: header only
+					} else if len(lines) >= 2 {
 						if v, err := strconv.Atoi(strings.Trim(string(lines[len(lines)-1]), "\"\r ")); err == nil {
 							d.Ver = v
 						} else {
@@ -357,6 +363,8 @@ func (s *Sched) awaitT(p *proc, a string, d time.Duration, record bool) (Event, 
 	ev.A = a
 	ev.Dir = s.dir()
 	ev.Out = p.outcome
+	ev.FailF = p.failF
+	ev.FailOp = p.failOp
 	if ev.Pt == "exited" {
 		p.exited = true
 	} else {
